@@ -2,11 +2,12 @@
    panic after validation.  NO PROOFS in this file.
 
    Rust items modelled (as written, including their quirks):
-     vrp-pragmatic/src/validation/common.rs   :: check_raw_time_windows, check_time_windows (sort + windows(2).any),
+     vrp-pragmatic/src/validation/common.rs   :: check_raw_time_windows, check_time_windows (sort + !is_empty && windows(2).all),
                                                  get_time_window, get_time_window_from_vec, get_time_windows, get_duplicates
      vrp-pragmatic/src/validation/jobs.rs     :: check_e1100 .. check_e1107, validate_jobs
      vrp-pragmatic/src/validation/vehicles.rs :: check_e1300 .. check_e1304, check_e1306 .. check_e1308, get_invalid_type_ids
-                                                 (short-circuiting `all` over shifts), check_shift_time_windows,
+                                                 (short-circuiting `all` over shifts; check_e1303 with parse_time_safe),
+                                                 check_shift_time_windows,
                                                  get_shift_time_window, validate_vehicles
      vrp-pragmatic/src/validation/routing.rs  :: check_e1500, check_e1501, check_e1504 (approximated-matrix mode), check_e1505,
                                                  (check_e1502/1503 cannot fire on coordinate-only documents), validate_routing
@@ -80,12 +81,13 @@ Fixpoint insert_by_start (x : tw) (l : list tw) : list tw :=
 Fixpoint sort_by_start (l : list tw) : list tw :=
   match l with [] => [] | x :: r => insert_by_start x (sort_by_start r) end.
 
-(* slice.windows(2).any(f) *)
-Fixpoint windows2_any (f : tw -> tw -> bool) (l : list tw) : bool :=
+(* slice.windows(2).all(f) *)
+Fixpoint windows2_all (f : tw -> tw -> bool) (l : list tw) : bool :=
   match l with
-  | a :: ((b :: _) as r) => f a b || windows2_any f r
-  | _ => false
+  | a :: ((b :: _) as r) => f a b && windows2_all f r
+  | _ => true
   end.
+Definition is_nil {A} (l : list A) : bool := match l with [] => true | _ => false end.
 
 Fixpoint unwrap_all (l : list (option tw)) : list tw :=
   match l with [] => [] | Some w :: r => w :: unwrap_all r | None :: r => unwrap_all r end.
@@ -97,7 +99,8 @@ Definition check_time_windows (tws : list (option tw)) (skip : bool) : bool :=
   if existsb is_none tws then false
   else match unwrap_all tws with
        | [a] => fst a <=? snd a
-       | ws => windows2_any (pair_ok skip) (sort_by_start ws)
+       | ws => let sorted := sort_by_start ws in
+               negb (is_nil sorted) && windows2_all (pair_ok skip) sorted      (* !tws.is_empty() && tws.windows(2).all(..) *)
        end.
 
 Definition check_raw_time_windows (tws : list twraw) (skip : bool) : bool :=
@@ -164,7 +167,8 @@ Definition has_invalid_tws (o : option (list task)) : bool :=
                                      | Some tws => negb (check_raw_time_windows tws false)
                                      | None => false end) (tk_places t)) (olist o).
 Definition check_e1103 (d : doc) : option bool :=
-  Some (existsb (fun j => has_invalid_tws (j_pickups j) || has_invalid_tws (j_deliveries j)) (d_jobs d)).
+  Some (existsb (fun j => has_invalid_tws (j_pickups j) || has_invalid_tws (j_deliveries j)
+                          || has_invalid_tws (j_replacements j) || has_invalid_tws (j_services j)) (d_jobs d)).
 
 Definition check_e1104 (d : doc) : option bool := Some (existsb (fun j => reserved (j_id j)) (d_jobs d)).
 
@@ -226,33 +230,26 @@ Definition check_shift_time_windows (st : option tw) (tws : list (option tw)) (s
             end
   end.
 
-Inductive btw := BSkip | BTw (w : option tw) | BPanic.
-Definition break_tw (s : shift) (b : brk) : btw :=
+(* filter_map over the breaks: None = the break contributes no window (optional offset break) *)
+Definition break_tw (s : shift) (b : brk) : option (option tw) :=
   match b with
-  | BOptTW w => BTw (get_time_window_from_vec w)
-  | BOptOff _ => BSkip
-  | BReqOff e l dur => match tm_val (sh_earliest s) with
-                       | None => BPanic                                   (* parse_time(&shift.start.earliest) *)
-                       | Some dep => BTw (Some (dep + e, dep + l + dur))
-                       end
-  | BReqExact e l dur => BTw (match tm_val e, tm_val l with Some a, Some b => Some (a, b + dur) | _, _ => None end)
+  | BOptTW w => Some (get_time_window_from_vec w)
+  | BOptOff _ => None
+  | BReqOff e l dur => Some (match tm_val (sh_earliest s) with          (* parse_time_safe(&shift.start.earliest).ok().map(..) *)
+                             | Some dep => Some (dep + e, dep + l + dur)
+                             | None => None
+                             end)
+  | BReqExact e l dur => Some (match tm_val e, tm_val l with Some a, Some b => Some (a, b + dur) | _, _ => None end)
   end.
-Fixpoint break_tws (s : shift) (bs : list brk) : option (list (option tw)) :=
+Fixpoint break_tws (s : shift) (bs : list brk) : list (option tw) :=
   match bs with
-  | [] => Some []
-  | b :: r => match break_tw s b, break_tws s r with
-              | BPanic, _ | _, None => None
-              | BSkip, Some l => Some l
-              | BTw w, Some l => Some (w :: l)
-              end
+  | [] => []
+  | b :: r => match break_tw s b with Some w => w :: break_tws s r | None => break_tws s r end
   end.
 Definition e1303_shift (s : shift) : option bool :=
   match sh_breaks s with
   | None => Some true
-  | Some bs => match break_tws s bs with
-               | None => None
-               | Some tws => Some (check_shift_time_windows (get_shift_time_window s) tws false)
-               end
+  | Some bs => Some (check_shift_time_windows (get_shift_time_window s) (break_tws s bs) false)
   end.
 Definition check_e1303 (d : doc) : option bool := any_vehicle_invalid e1303_shift (d_vehicles d).
 
